@@ -1,7 +1,8 @@
 (** C06 proofs, part 3: a measure that every effective step of every thread decreases, for
     any state and any variant of the code: every execution has at most [mu (init)] effective
     steps. *)
-From Wharf Require Import Base.Prelude FS.Tree FS.Ops Heal.Validator Heal.Healer.
+From Coq Require Import Arith Lia.
+From Wharf Require Import FS.Light FS.Tree FS.Ops Heal.Validator Heal.Healer.
 
 Definition wcost (w : wound) : nat := match w with WFile _ _ => 3 | _ => 1 end.
 
